@@ -195,7 +195,8 @@ def main():
             # ---------------- vacuity probes
             probe_fns = [p for p in cfg.get("probes", {}).get(specname, [])]
             if tier == "thorough":
-                probe_fns = [f["fn"] for f in info["functions"] if f["contract"] and pid in f["props"] and f["fn"] not in info["stubs"]]
+                probe_fns = [f["fn"] for f in info["functions"] if f["contract"] and pid in f["props"] and f["fn"] not in info["stubs"]
+                             and f.get("has_body", True) and "<" not in f["fn"]]
             def do_probe(fn):
                 try:
                     mod, _, rest = fn.partition("::")
